@@ -39,7 +39,7 @@ NoDup(c) == Cardinality(ToSet(c.nondust)) = Len(c.nondust) /\ Cardinality(ToSet(
 TraceInit ==
   /\ l = 1 /\ nodeOf = <<>> /\ saved = <<>> /\ everRAA = <<>> /\ projB = <<>>
   /\ fw = [adds |-> {}, downFul |-> {}, upClaimed |-> {}, settledNow |-> {}, base0 |-> <<>>, pol |-> <<>>,
-           shut |-> {}, closeFee |-> <<>>, newInfl |-> {}, crashed |-> {}, liveAtCrash |-> {}, snapKnows |-> <<>>, needSent |-> {}]
+           shut |-> {}, closeFee |-> <<>>, newInfl |-> {}, crashed |-> {}, liveAtCrash |-> {}, snapKnows |-> <<>>, needSent |-> {}, owed |-> {}]
   /\ par = <<>> /\ cnt = <<>> /\ hs = <<>> /\ fees = <<>> /\ feeBase = <<>> /\ base = <<>>
   /\ link = <<>> /\ redo = <<>> /\ lastCS = <<>> /\ order = <<>> /\ pts = <<>> /\ mon = <<>>
   /\ ownExp = <<>>
@@ -72,7 +72,7 @@ TOpen ==
         /\ saved' = <<>> /\ projB' = <<>>
         /\ fw' = [adds |-> {}, downFul |-> {}, upClaimed |-> {}, settledNow |-> {},
                    base0 |-> [e \in E |-> IF e[2] = 1 THEN cs[ch(e[1])].bal_a_msat ELSE cs[ch(e[1])].bal_b_msat],
-                   pol |-> R.policy, shut |-> {}, closeFee |-> [c \in C |-> 0], newInfl |-> {}, crashed |-> {}, liveAtCrash |-> {}, snapKnows |-> <<>>, needSent |-> {}]
+                   pol |-> R.policy, shut |-> {}, closeFee |-> [c \in C |-> 0], newInfl |-> {}, crashed |-> {}, liveAtCrash |-> {}, snapKnows |-> <<>>, needSent |-> {}, owed |-> {}]
 
 \* not part of the commitment protocol; `warning` / `disconnect_peer` ask the transport to drop the
 \* peer (the harness then disconnects, as PeerManager would) -- an `error` is never acceptable
@@ -229,6 +229,9 @@ TCrash ==
   /\ UNCHANGED <<nodeOf, saved, everRAA, projB>>
   /\ fw' = [fw EXCEPT !.crashed = @ \cup {R.node},
                        !.settledNow = {p \in @ : p[1] \notin EPsOf(R.node)},
+                       \* an event the user refused stays owed if the manager restarted from was written after
+                       \* the refusal (pending events are part of it)
+                       !.owed = {o \in @ : o[1] # R.node \/ o[4] <= R.mgr},
                        !.liveAtCrash = {p \in @ : p[1] # R.node} \cup
                           {<<R.node, x.hash>> : x \in UNION {{y \in hs[e] : y.dir = "out" /\ MonIds[e] >= mon[e].last} : e \in {z \in EPsOf(R.node) : ~Closed(z)}}},
                        \* claims the durable monitor knows (peer's signature for the removal was accepted, so the
@@ -273,9 +276,17 @@ TBroadcast ==
 
 \* ---- events: a closed channel has no place on an honest off-chain run
 CoopClose == R.kind = "ChannelClosed" /\ R.reason = "CooperativeClosure"
+\* events the library documents as re-delivered until handled (the user's handler may answer ReplayEvent)
+PersistentEvents == {"PaymentSent", "PaymentFailed", "PaymentClaimable"}
+TEventRefused ==
+  /\ IsEvent("event_refused") /\ UNCHANGED <<cvars, nodeOf, saved, everRAA, projB>>
+  /\ fw' = IF R.kind \in PersistentEvents THEN [fw EXCEPT !.owed = @ \cup {<<R.node, R.kind, R.hash, R.snap>>}] ELSE fw
 TEvent ==
   /\ IsEvent("event") /\ UNCHANGED <<nodeOf, saved, everRAA, projB>>
-  /\ fw' = IF R.kind = "PaymentSent" THEN [fw EXCEPT !.needSent = @ \ {<<R.node, R.hash>>}] ELSE fw
+  /\ fw' = IF R.kind \in PersistentEvents
+            THEN [fw EXCEPT !.needSent = IF R.kind = "PaymentSent" THEN @ \ {<<R.node, R.hash>>} ELSE @,
+                            !.owed = {o \in @ : ~(o[1] = R.node /\ o[2] = R.kind /\ o[3] = R.hash)}]
+            ELSE fw
   /\ IF CoopClose /\ ~Closed(EP(R.chan, R.node))
      THEN \* a cooperative close needs a shutdown exchange and no pending HTLC
           /\ G1(R.chan \in fw.shut /\ hs[EP(R.chan, R.node)] = {})
@@ -310,7 +321,7 @@ TProj ==
         G12(b.out_cap = R.out_cap /\ b.in_cap = R.in_cap /\ b.n_in = R.n_in /\ b.n_out = R.n_out /\ b.ready = R.ready)
 
 TOther ==
-  /\ l <= Len(Rec) /\ Rec[l].ev \in {"forward", "claim", "fail", "fee", "tick", "block", "persist_mode", "restarted", "close", "open_extra", "pause_flush", "flush"}
+  /\ l <= Len(Rec) /\ Rec[l].ev \in {"forward", "claim", "fail", "fee", "tick", "block", "persist_mode", "restarted", "close", "open_extra", "pause_flush", "flush", "hold_events"}
   /\ l' = l + 1 /\ Stutter
 
 \* ---- a channel opened while the run is in progress (C09: nothing that depends on the initial
@@ -336,6 +347,8 @@ TFin ==
   /\ IsEvent("fin") /\ Stutter
   \* C10: every claim the durable monitor knew at a crash was reported again as PaymentSent
   /\ G10(\A p \in fw.needSent : p[1] # R.node)
+  \* C10: every event the user refused was handed over again
+  /\ G10(\A o \in fw.owed : o[1] # R.node)
   /\ ~AnyClosed(R.node) =>
         \* C02: every preimage the node learned downstream was used upstream ...
         /\ G2(\A p \in fw.downFul : (p[1] = R.node /\ UpAdds(R.node, p[2]) # {}) => p \in fw.upClaimed)
@@ -347,7 +360,7 @@ TFin ==
                                     {a \in fw.adds : a.node = n /\ a.dir = "in"})
                IN gotIn >= paidOut)
 
-TraceNext == TFin \/ TScorer \/ TExtra \/ TOpen \/ TMsg \/ TDeliver \/ TPersist \/ TComplete \/ TSend \/ TDisconnect \/ TReconnect
+TraceNext == TEventRefused \/ TFin \/ TScorer \/ TExtra \/ TOpen \/ TMsg \/ TDeliver \/ TPersist \/ TComplete \/ TSend \/ TDisconnect \/ TReconnect
              \/ TEvent \/ TOther \/ TMgrSnap \/ TCrash \/ TBroadcast \/ TProj
 
 TraceSpec == TraceInit /\ [][TraceNext]_tvars
